@@ -27,12 +27,12 @@ ALL_DIALECTS = STD + BSF + ["mysql", "bigquery"]
 WRITER_BS_FALLBACK = {d: d in BSF + ["mysql"] for d in ALL_DIALECTS}
 READER_FALLBACK = {d: (d in BSF + ["mysql", "bigquery"], d == "mysql") for d in ALL_DIALECTS}
 
-HEADER = ("From Coq Require Import List NArith ZArith.\nFrom PV Require Import Lib.ListX Model.Escape Model.SqlLex Model.Literal.\n"
+HEADER = ("From Coq Require Import List NArith ZArith.\nFrom PV Require Import Lib.ListX Model.Escape Model.SqlLex Model.SqlLexBq Model.Literal.\n"
           "Import ListNotations.\nLocal Open Scope N_scope.\n"
           "Definition canon (l : list tok) : list (N * str) := match rev l with TUnterminated :: _ => [(6, [])] | _ => filter (fun p => negb (fst p =? 5)) (map tok_view l) end.\n"
           # e0 / e1: what translate_literal emits without / with backslash doubling
           "Definition five (s : str) := let e0 := emit_literal_string false s in let e1 := emit_literal_string true s in\n"
-          "  (emit_string s, (e0, e1), canon (sql_lex std_sql e0), (canon (sql_lex bs_sql e1), canon (sql_lex mysql_sql e1)), (canon (sql_lex bs_sql e0), canon (sql_lex mysql_sql e0))).\n")
+          "  (emit_string s, (e0, e1), canon (sql_lex std_sql e0), (canon (sql_lex bs_sql e1), canon (sql_lex mysql_sql e1)), (canon (sql_lex bs_sql e0), canon (sql_lex mysql_sql e0)), canon (bq_lex true e0)).\n")
 
 KIND = {"String": 1, "Quoted": 2, "DString": 2, "Word": 3, "Number": 4}
 
@@ -103,13 +103,15 @@ def run():
     ck.coverage["backslash_reading_dialects"] = sorted(d for d, (b, _) in reader.items() if b)
 
     def cl_string(case):
-        """F6c: bigquery only (reads backslash escapes and has no doubled-quote escape -- a literal that starts with three quotes
-        is a triple-quoted string -- but gets the standard emission), value with a backslash or a quote.
+        """F6c: bigquery only (reads backslash escapes; a literal that starts with three quotes is a triple-quoted string; gets the
+        standard emission), value with a backslash or starting with a quote: exactly the complement of bq_fits true, the class on
+        which sqlparser's BigQuery tokenizer (the oracle here) fails.  (Documented BigQuery fails on every quote: bq_fits false.)
         mysql / clickhouse / snowflake / redshift (F6b, FIXED by d2c1667) are excused by nothing any more."""
         v = case.get("value")
         if v is None:
             return None
-        if case.get("dialect") == "bigquery" and (bs_value(v) or "'" in v):
+        vs = case.get("values") or [v]
+        if case.get("dialect") == "bigquery" and any(bs_value(x) or x.startswith("'") for x in vs):
             return "F6c-bigquery-string-escapes"
         return None
 
@@ -157,6 +159,8 @@ def run():
     # which lexer model stands for which dialect: by the reading-side flags
     def model_of(d):
         b, w = reader[d]
+        if d == "bigquery":
+            return "bq"             # Model/SqlLexBq.v bq_lex true: sqlparser's BigQuery tokenizer, triple-quoted strings included
         return "mysql" if (b and w) else ("bs" if b else "std")
     for i, s in enumerate(strings):
         ck.count("escape-model", s, nontrivial=("'" in s or "\\" in s))
@@ -176,7 +180,7 @@ def run():
                              {"kind": "prqlc-vs-predoubled", "value": s, "dialect": d, "prqlc": prqlc_text[(d, i)], "expected": text})
         if model5 is None:
             continue
-        m_esc, (m_e0, m_e1), m_std, (m_bs1, m_my1), (m_bs0, m_my0) = model5[i]
+        m_esc, (m_e0, m_e1), m_std, (m_bs1, m_my1), (m_bs0, m_my0), m_bq0 = model5[i]
         if s_of(m_esc) != impl_esc[i]["string"]:
             ck.violation("model of EscapeQuotedString differs from sqlparser's Display", {"kind": "model-vs-sqlparser", "s": s, "model": s_of(m_esc), "impl": impl_esc[i]["string"]})
         for flag, me in ((False, m_e0), (True, m_e1)):
@@ -187,7 +191,7 @@ def run():
             if (d, i) in prqlc_text and prqlc_text[(d, i)] != me:
                 ck.violation("model emit_literal_string differs from prqlc's output for %r on %s" % (s, d), {"kind": "model-vs-prqlc", "value": s, "dialect": d, "model": me, "prqlc": prqlc_text[(d, i)]})
         # lexer models vs the real tokenizers, on the text each dialect gets
-        by_model = {("std", False): m_std, ("bs", True): m_bs1, ("mysql", True): m_my1, ("bs", False): m_bs0, ("mysql", False): m_my0}
+        by_model = {("std", False): m_std, ("bs", True): m_bs1, ("mysql", True): m_my1, ("bs", False): m_bs0, ("mysql", False): m_my0, ("bq", False): m_bq0}
         for d in ALL_DIALECTS:
             for plain in (False, True):
                 if plain and (d not in tok_plain or not writer_bs[d]):
@@ -196,8 +200,6 @@ def run():
                 mm = by_model.get((model_of(d), flag))
                 if mm is None:          # a standard reader given doubled backslashes: not a configuration of the unchanged tree
                     continue
-                if d == "bigquery" and "'" in s:
-                    continue            # BigQuery's triple-quoted strings are not modelled by Model/SqlLex.v (part of F6c)
                 ck.count("sqllex-model", d + "|" + str(int(flag)) + "|" + s, nontrivial=("'" in s or "\\" in s))
                 mm, ii = canon_model(mm), (tok_plain[d][i] if plain else tok_by[d][i])
                 clean = (reader[d][0] == flag) or "\\" not in s
